@@ -222,7 +222,8 @@ class C10(Check):
             'until() that closes everybody, an outside consumer, and a final close+drain; Task.cancel injected at '
             'sampled (thorough: all) activation boundaries of every participant. non-trivial = a participant was '
             'cancelled/interrupted/closed while a receiver was waiting or an item was in flight, or close with '
-            'buffered items; distinct by sha1(program+faults).')
+            'buffered items; distinct by sha1(program+faults). Also opaque payload (None, 0, empty string as items) and crowds of '
+            '34-70 receivers.')
     budgets = {'quick': dict(examples=2000, procs=4), 'thorough': dict(examples=16000, procs=16)}
     level_text = ('History invariants under exhaustive boundary cancel injection: multiset(received incl. drain) == '
                   'multiset(accepted), global receive order == put order, waiting receivers served in waiting order, '
